@@ -10,9 +10,38 @@ def sig(tr, clause, line):
     return {"N": tr["P"].get("N"), "half": tr["P"].get("half")}
 
 
+def inductive(chk):
+    """Apalache: IndInv of spec/apalache/APA_GPO.tla (the schedule as a counter machine, N and H symbolic) is inductive --
+    the schedule invariants for every N >= 1 and H >= 1, not only the enumerated pairs; a late phase end must be refuted"""
+    import os, subprocess, time
+    from .. import common as C
+    out = os.path.join(chk.wd, "apa")
+    done = []
+
+    def apa(label, extra, want_ok):
+        cmd = ["apalache-mc", "check", "--cinit=ConstInit", "--inv=IndInv", "--out-dir=" + out] + extra + ["APA_GPO.tla"]
+        t = time.time()
+        p = subprocess.run(cmd, cwd=os.path.join(C.SPEC, "apalache"), stdout=subprocess.PIPE, stderr=subprocess.STDOUT, text=True, timeout=900)
+        ok = "The outcome is: NoError" in p.stdout
+        bad = "The outcome is: Error" in p.stdout
+        if not ok and not bad:
+            raise C.Machinery("apalache failed: " + p.stdout[-1500:])
+        done.append({"obligation": label, "discharged": ok, "s": round(time.time() - t, 1), "cmd": " ".join(cmd)})
+        chk.cmds.append(" ".join(cmd))
+        if want_ok and not ok:
+            chk.violations.append(({"source": "apalache", "obligation": label}, out))
+        if not want_ok and ok:
+            raise C.Machinery("negative control (phases ending one round late) was not refuted by Apalache")
+    apa("Init => IndInv", ["--init=Init", "--length=0"], True)
+    apa("IndInv /\\ Next => IndInv'", ["--init=IndInit", "--length=1"], True)
+    apa("negative control: NextLate breaks IndInv", ["--init=IndInit", "--next=NextLate", "--length=1"], False)
+    chk.notes["inductive_invariant_apalache(all N, H >= 1)"] = done
+
+
 def run(tier):
     chk = F.Check("C09", tier)
     WC.gpo_models(chk, tier)
+    inductive(chk)
     WC.gpo_real_pairs(chk, tier)
     trs = S.pmap(W.run_wrap, WC.gpo_cfgs(tier, 900000))
     chk.validate("Trace_Wrap.tla", "Trace_Wrap.cfg", trs, "gpo", own=["gpo."], sigfn=sig, nontrivial=lambda t: t["learners"] >= 2)
